@@ -193,6 +193,20 @@ Proof.
       * rewrite firstn_length. lia.
 Qed.
 
+Lemma chunks_length : forall f d, (List.length d < f)%nat ->
+  (List.length d <= List.length (chunks_aux f c d))%nat.
+Proof.
+  induction f as [|f IH]; intros d Hd; [lia|]. cbn [chunks_aux]. destruct d as [|x d'] eqn:Ed; [cbn; lia|].
+  rewrite <- Ed in *. destruct (Nat.leb_spec (List.length d) c).
+  - unfold chunk. rewrite !app_length. lia.
+  - rewrite app_length. unfold chunk at 1. rewrite !app_length.
+    assert (List.length (skipn c d) < f)%nat by (rewrite skipn_length; subst d; cbn [List.length] in *; lia).
+    specialize (IH (skipn c d) H0). rewrite skipn_length in IH. rewrite firstn_length. lia.
+Qed.
+
+Lemma chunk_encode_length d : (List.length d <= List.length (chunk_encode_c c d))%nat.
+Proof. unfold chunk_encode_c. rewrite app_length. pose proof (chunks_length (S (List.length d)) d). lia. Qed.
+
 Lemma dechunk_encode d tail fuel : (List.length d < fuel)%nat ->
   dechunk fuel (chunk_encode_c c d ++ tail) [] = Some (d, tail).
 Proof.
@@ -201,3 +215,245 @@ Proof.
   apply (dechunk_chunks (S (List.length d)) d [] fuel tail); lia.
 Qed.
 End Chunks.
+
+(* ---- the whole message ---- *)
+Lemma render_head_eq ver st hs :
+  render_head ver st hs = status_line ver st ++ CRLF ++ render_headers hs ++ CRLF.
+Proof. unfold render_head, status_line, render_headers. repeat rewrite <- app_assoc. reflexivity. Qed.
+
+Lemma render_headers_length hs : (List.length hs <= List.length (render_headers hs))%nat.
+Proof.
+  induction hs as [|h t IH]; [cbn; lia|]. unfold render_headers in *. cbn [map List.concat List.length].
+  rewrite app_length. unfold render_header at 1. rewrite !app_length. cbn [List.length CRLF]. lia.
+Qed.
+
+Lemma bodyless_is_no_body st : bodyless_status st = no_body_status st.
+Proof.
+  unfold bodyless_status, no_body_status. f_equal. f_equal.
+  destruct (N.eqb_spec (st / 100) 1), (N.leb_spec 100 st), (N.leb_spec st 199); cbn [andb]; try reflexivity; lia.
+Qed.
+
+Lemma equiv_norm n h : equiv n (norm h) = equiv n h.
+Proof. reflexivity. Qed.
+
+Lemma values_of_norm n hs : values_of n (map norm hs) = map trim_ows (map hvalue (filter (equiv n) hs)).
+Proof.
+  unfold values_of. induction hs as [|h t IH]; cbn [map filter]; [reflexivity|].
+  rewrite equiv_norm. destruct (equiv n h); cbn [map]; [f_equal|]; exact IH.
+Qed.
+
+Lemma ltrim_ows_digits y : forallb is_digit y = true -> ltrim_ows y = y.
+Proof.
+  destruct y as [|c t]; [reflexivity|]. cbn [forallb ltrim_ows]. intros H. apply andb_true_iff in H as [Hc _].
+  unfold is_ows. destruct (digit_not c Hc) as (_ & -> & _).
+  destruct (Ascii.eqb_spec c HT) as [->|]; [vm_compute in Hc; discriminate|reflexivity].
+Qed.
+Lemma trim_ows_digits x : forallb is_digit x = true -> trim_ows x = x.
+Proof.
+  intros H. unfold trim_ows. rewrite (ltrim_ows_digits x H).
+  rewrite ltrim_ows_digits; [apply rev_involutive|].
+  apply forallb_forall. intros c Hc. apply in_rev in Hc. rewrite forallb_forall in H. auto.
+Qed.
+
+Definition wf_response (r : response) : Prop :=
+  100 <= status r <= 999 /\
+  forallb wf_header (rheaders r) = true /\
+  clean r /\
+  (data_length r = None \/ data_length r = Some (len (rbody r))) /\
+  len (rbody r) < USIZE_BOUND.
+
+Lemma wf_app a b : forallb wf_header (a ++ b) = forallb wf_header a && forallb wf_header b.
+Proof. apply forallb_app. Qed.
+
+Lemma final_headers_wf date r te dl :
+  forallb wf_header (rheaders r) = true -> nolf date = true ->
+  forallb wf_header (final_headers date r None te dl) = true.
+Proof.
+  intros Hr Hd. rewrite final_headers_split, wf_app. apply andb_true_iff. split.
+  - unfold base_headers, final_headers.
+    assert (Hdate : wf_header (mkH (s "Date") date) = true).
+    { unfold wf_header. cbn [hname hvalue]. now rewrite Hd. }
+    destruct (existsb (equiv "Date") (rheaders r));
+      [destruct (existsb (equiv "Server") (rheaders r))
+      |destruct (existsb (equiv "Server") (mkH (s "Date") date :: rheaders r))];
+      cbn [forallb]; rewrite ?Hdate, ?Hr; reflexivity.
+  - destruct te as [[|]|]; [destruct dl as [l|]| |]; cbn [forallb]; try reflexivity.
+    unfold wf_header. cbn [hname hvalue]. rewrite andb_true_r.
+    destruct (print_dec_digits l) as [_ H]. unfold nolf.
+    replace (match s "Content-Length" with [] => false | _ :: _ => true end &&
+             negb (existsb is_ws (s "Content-Length")) &&
+             forallb (fun a : ascii => negb (Ascii.eqb a ":")) (s "Content-Length")) with true by reflexivity.
+    cbn [andb]. eapply forallb_impl; [|exact H]. intros x Hx. destruct (digit_not x Hx) as (-> & _). reflexivity.
+Qed.
+
+Definition expected_body (head : bool) (r : response) : bytes :=
+  if head || bodyless_status (status r) then [] else rbody r.
+
+Theorem roundtrip te0 date r ver head tail :
+  wf_response r -> nolf date = true -> In ver versions ->
+  exists p, parse_response head (raw_print_with te0 date r ver head None ++ tail) = Some p /\
+            p_status p = status r /\ p_body p = expected_body head r /\ p_rest p = tail /\
+            p_delim p <> UntilClose.
+Proof.
+  intros (Hst & Hwf & Hclean & Hlen & Hsmall) Hdate Hver.
+  unfold raw_print_with. rewrite <- bodyless_is_no_body.
+  set (dl := match data_length r with Some l => Some l | None =>
+               match Some te0 with Some Identity => Some (len (rbody r)) | _ => None end end).
+  set (hs := final_headers date r None (Some te0) dl).
+  set (payload := if head || bodyless_status (status r) then [] else
+                    match Some te0, dl with
+                    | Some Chunked, _ => chunk_encode (rbody r)
+                    | Some Identity, Some l => if 1 <=? l then rbody r else []
+                    | _, _ => []
+                    end).
+  rewrite render_head_eq. repeat rewrite <- app_assoc.
+  destruct (status_line_parses ver (status r) Hver Hst) as (Hnl & v & rs & Hps).
+  unfold parse_response. rewrite split_crlf_app' by exact Hnl. rewrite Hps.
+  assert (Hhs : forallb wf_header hs = true) by (apply final_headers_wf; assumption).
+  rewrite parse_fields_render; [|pose proof (render_headers_length hs); rewrite !app_length; lia|exact Hhs].
+  unfold expected_body.
+  destruct (head || bodyless_status (status r)) eqn:Eskip.
+  - subst payload. cbn [app]. eexists. repeat split; cbn [p_delim]; discriminate.
+  - pose proof (framing_headers date r None (Some te0) dl Hclean) as Hfr. fold hs in Hfr. cbv zeta in Hfr.
+    unfold final_coding, content_length. rewrite !values_of_norm.
+    change (equiv "Transfer-Encoding") with is_te. change (equiv "Content-Length") with is_cl.
+    destruct te0.
+    + (* identity *)
+      assert (Hdl : dl = Some (len (rbody r))).
+      { subst dl. destruct Hlen as [->| ->]; reflexivity. }
+      rewrite Hdl in Hfr. destruct Hfr as [Hcl Hte]. rewrite Hcl, Hte. cbn [map hvalue].
+      destruct (print_dec_digits (len (rbody r))) as [_ Hdig].
+      rewrite trim_ows_digits by exact Hdig. cbn [forallb andb]. rewrite Hdig.
+      rewrite parse_dec_print by exact Hsmall.
+      subst payload. rewrite Hdl.
+      assert (Hpay : forall (A : Type) (x y : A), (if 1 <=? len (rbody r) then x else y) = x \/ rbody r = []).
+      { intros A x y. destruct (N.leb_spec 1 (len (rbody r))); [now left|right].
+        unfold len in *. destruct (rbody r); [reflexivity|cbn [List.length] in *; lia]. }
+      assert (Hgoal : forall b : bytes, b = rbody r ->
+        exists p, (if len (b ++ tail) <? len (rbody r) then None else
+           Some (mkP v (status r) rs (map norm hs) (firstn (N.to_nat (len (rbody r))) (b ++ tail))
+                     (skipn (N.to_nat (len (rbody r))) (b ++ tail)) ByLength)) = Some p /\
+           p_status p = status r /\ p_body p = rbody r /\ p_rest p = tail /\ p_delim p <> UntilClose).
+      { intros b ->.
+        assert (len (rbody r ++ tail) <? len (rbody r) = false) as ->.
+        { apply N.ltb_ge. unfold len. rewrite app_length. lia. }
+        unfold len. rewrite Nat2N.id, firstn_app, firstn_all, Nat.sub_diag, skipn_app, skipn_all, Nat.sub_diag.
+        cbn [firstn skipn app]. rewrite app_nil_r.
+        eexists. repeat split; cbn [p_delim]; discriminate. }
+      apply Hgoal. destruct (Hpay (list ascii) (rbody r) []) as [->|E]; [reflexivity|].
+      rewrite E. now destruct (1 <=? len []).
+    + (* chunked *)
+      destruct Hfr as [Hte Hcl]. rewrite Hte. cbn [map hvalue].
+      replace (match [trim_ows (s "chunked")] with
+               | [] => None
+               | _ :: _ => Some (lower (last (flat_map (fun v0 => map trim_ows (split_on "," v0)) [trim_ows (s "chunked")]) []))
+               end) with (Some (s "chunked")) by reflexivity.
+      replace (beq (s "chunked") (s "chunked")) with true by reflexivity.
+      subst payload. unfold chunk_encode.
+      rewrite (dechunk_encode CHUNK); [|unfold CHUNK; lia|unfold CHUNK; rewrite N2Nat.id; reflexivity
+        |rewrite app_length; pose proof (chunk_encode_length CHUNK ltac:(unfold CHUNK; lia) ltac:(unfold CHUNK; rewrite N2Nat.id; reflexivity) (rbody r)); lia].
+      eexists. repeat split; cbn [p_delim]; discriminate.
+Qed.
+
+(* no body bytes at all for HEAD and for 1xx / 204 / 304 *)
+Theorem no_body_bytes te0 date r ver head up :
+  head || no_body_status (status r) = true ->
+  raw_print_with te0 date r ver head up =
+  render_head ver (status r)
+    (final_headers date r up (match up with Some _ => None | None => Some te0 end)
+       (match data_length r, match up with Some _ => None | None => Some te0 end with
+        | Some l, _ => Some l
+        | None, Some Identity => Some (len (rbody r))
+        | None, _ => None
+        end)).
+Proof. unfold raw_print_with. intros ->. now rewrite app_nil_r. Qed.
+
+(* ---- the hypotheses of `roundtrip` are met by everything the application can build from
+        well-formed headers ---- *)
+Definition wf_name (n : bytes) : bool :=
+  match n with [] => false | _ => true end && negb (existsb is_ws n) &&
+  forallb (fun a => negb (Ascii.eqb a ":")) n.
+Lemma wf_header_split h : wf_header h = wf_name (hname h) && nolf (hvalue h).
+Proof. reflexivity. Qed.
+
+Lemma replace_first_ct_wf v hs :
+  nolf v = true -> forallb wf_header hs = true -> forallb wf_header (replace_first_ct v hs) = true.
+Proof.
+  intros Hv. induction hs as [|h t IH]; cbn [replace_first_ct forallb]; [auto|]. intros H.
+  apply andb_true_iff in H as [Hh Ht]. destruct (equiv "Content-Type" h); cbn [forallb].
+  - rewrite Ht, andb_true_r. rewrite wf_header_split in *. cbn [hname hvalue].
+    apply andb_true_iff in Hh as [-> _]. now rewrite Hv.
+  - now rewrite Hh, IH.
+Qed.
+
+Lemma add_header_wf r h :
+  wf_header h = true -> forallb wf_header (rheaders r) = true ->
+  forallb wf_header (rheaders (add_header r h)) = true.
+Proof.
+  intros Hh Hr. unfold add_header. destruct (forbidden h); [exact Hr|].
+  destruct (equiv "Content-Length" h); [destruct (parse_usize (hvalue h)); exact Hr|].
+  destruct (equiv "Content-Type" h && existsb (equiv "Content-Type") (rheaders r)); cbn [set_headers rheaders].
+  - apply replace_first_ct_wf; [|exact Hr]. rewrite wf_header_split in Hh. now apply andb_true_iff in Hh as [_ ->].
+  - rewrite forallb_app, Hr. cbn [forallb]. now rewrite Hh.
+Qed.
+
+Definition wf_rop (o : rop) : bool := match o with WithHeader h => wf_header h | _ => true end.
+
+Lemma apply_rop_wf r o :
+  wf_rop o = true -> forallb wf_header (rheaders r) = true ->
+  forallb wf_header (rheaders (apply_rop r o)) = true.
+Proof. destruct o; cbn [wf_rop apply_rop rheaders]; auto using add_header_wf. Qed.
+
+Lemma build_wf ops : forall r,
+  forallb wf_rop ops = true -> forallb wf_header (rheaders r) = true ->
+  forallb wf_header (rheaders (build r ops)) = true.
+Proof.
+  unfold build. induction ops as [|o t IH]; intros r Ho Hr; cbn [fold_left]; [exact Hr|].
+  cbn [forallb] in Ho. apply andb_true_iff in Ho as [Ho Ht]. apply IH; [exact Ht|]. now apply apply_rop_wf.
+Qed.
+
+Lemma new_response_wf st hs b dl :
+  forallb wf_header hs = true -> forallb wf_header (rheaders (new_response st hs b dl)) = true.
+Proof.
+  unfold new_response. intros H.
+  assert (G : forall r, forallb wf_header (rheaders r) = true ->
+                        forallb wf_header (rheaders (fold_left add_header hs r)) = true).
+  { induction hs as [|h t IH]; intros r Hr; cbn [fold_left]; [exact Hr|].
+    cbn [forallb] in H. apply andb_true_iff in H as [Hh Ht]. apply IH; [exact Ht|]. now apply add_header_wf. }
+  now apply G.
+Qed.
+
+Theorem built_wf st hs b ops :
+  100 <= st <= 999 -> forallb wf_header hs = true -> forallb wf_rop ops = true ->
+  len b < USIZE_BOUND ->
+  (* no status/data changes among ops, to keep the statement simple: headers and thresholds only *)
+  forallb (fun o => match o with WithStatus _ | WithData _ _ => false | _ => true end) ops = true ->
+  (* no Content-Length header among the supplied ones: the length is declared correctly or not at all *)
+  forallb (fun h => negb (equiv "Content-Length" h)) hs = true ->
+  forallb (fun o => match o with WithHeader h => negb (equiv "Content-Length" h) | _ => true end) ops = true ->
+  forall dl, dl = None \/ dl = Some (len b) ->
+  wf_response (build (new_response st hs b dl) ops).
+Proof.
+  intros Hst Hhs Hops Hb Hkind Hcl1 Hcl2 dl Hdl.
+  assert (Hnew : forall l r, forallb (fun h => negb (equiv "Content-Length" h)) l = true ->
+            status (fold_left add_header l r) = status r /\ rbody (fold_left add_header l r) = rbody r /\
+            data_length (fold_left add_header l r) = data_length r).
+  { induction l as [|h t IH]; intros r Hl; cbn [fold_left]; [auto|]. cbn [forallb] in Hl.
+    apply andb_true_iff in Hl as [Hh Ht]. destruct (IH (add_header r h) Ht) as (-> & -> & ->).
+    unfold add_header. destruct (forbidden h); [auto|]. apply negb_true_iff in Hh. rewrite Hh.
+    destruct (equiv "Content-Type" h && existsb (equiv "Content-Type") (rheaders r)); auto. }
+  assert (Hb2 : forall l r, forallb (fun o => match o with WithStatus _ | WithData _ _ => false | _ => true end) l = true ->
+            forallb (fun o => match o with WithHeader h => negb (equiv "Content-Length" h) | _ => true end) l = true ->
+            status (build r l) = status r /\ rbody (build r l) = rbody r /\ data_length (build r l) = data_length r).
+  { unfold build. induction l as [|o t IH]; intros r H1 H2; cbn [fold_left]; [auto|]. cbn [forallb] in H1, H2.
+    apply andb_true_iff in H1 as [Ho1 Ht1]. apply andb_true_iff in H2 as [Ho2 Ht2].
+    destruct (IH (apply_rop r o) Ht1 Ht2) as (-> & -> & ->). destruct o; try discriminate; cbn [apply_rop]; auto.
+    unfold add_header. destruct (forbidden h); [auto|]. apply negb_true_iff in Ho2. rewrite Ho2.
+    destruct (equiv "Content-Type" h && existsb (equiv "Content-Type") (rheaders r)); auto. }
+  destruct (Hb2 ops (new_response st hs b dl) Hkind Hcl2) as (E1 & E2 & E3).
+  destruct (Hnew hs (mkR st [] b dl None) Hcl1) as (F1 & F2 & F3). unfold new_response in *.
+  unfold wf_response. rewrite E1, E2, E3, F1, F2, F3. cbn [status rbody data_length].
+  repeat split; try lia; try exact Hdl.
+  - apply build_wf; [exact Hops|]. now apply new_response_wf.
+  - apply build_clean. apply (new_response_clean st hs b dl).
+Qed.
